@@ -39,8 +39,9 @@ fn main() -> Result<(), Box<dyn Error>> {
                 }
             }
         }
-        xml_xpath::eval::model::Value::Number(v) => {
-            println!("{}", v);
+        xml_xpath::eval::model::Value::Number(_) => {
+            // As the `string` function writes it: `Infinity`, not `inf`.
+            println!("{}", String::try_from(&value)?);
         }
         xml_xpath::eval::model::Value::Text(v) => {
             println!("{}", v);
